@@ -70,6 +70,7 @@ fn dispatch(op: &str, args: &[Sexp]) -> String {
         "geom.contains" => crate::props::c13::op_contains(args),
         "dep.tolerant" => crate::props::c17::op_tolerant(args),
         "dep.ports" => crate::props::c17::op_ports(args),
+        "layers.ops" => crate::props::layers::op_ops(args),
         "dep.generic" => crate::props::c17::op_generic(args),
         "dep.raw" => crate::props::c17::op_raw(args),
         "dep.tetris" => crate::props::c17::op_tetris(args),
